@@ -384,7 +384,8 @@ theorem unw_congr (P : Prims) (jwe jwe' rcp rcp' : Json)
   | zero => intros; rfl
   | succ n ih =>
     intro name jwk cek rnd
-    simp only [unw, hr1, hr2, ih]
+    have hne : noEncryptedKey rcp = noEncryptedKey rcp' := by simp only [noEncryptedKey, hr1]
+    simp only [unw, hne, hr1, hr2, ih]
 
 theorem jweHdr_members (a b : Json) (r r' : Option Json) (hp : a.get? "protected" = b.get? "protected")
     (hu : a.get? "unprotected" = b.get? "unprotected") (hh : r.bind (·.get? "header") = r'.bind (·.get? "header")) :
